@@ -120,6 +120,10 @@ func Open(filename string, opts ...Option) (*Whisper, error) {
 		w.file.Close()
 		return nil, fmt.Errorf("readHeader: %s: %s", filename, err)
 	}
+	if expected := w.header.ExpectedFileSize(); st.Size() < expected {
+		w.file.Close()
+		return nil, fmt.Errorf("file is truncated: %s: size is %d, header declares %d", filename, st.Size(), expected)
+	}
 	return w, nil
 }
 
